@@ -101,9 +101,45 @@ class Table:
             if s not in texts:
                 texts.append(s)
                 uniq.append(a)
+        uniq = [self._fold_class_consts(u, fi) for u in uniq]
         if len(uniq) == 1:
             return uniq[0]
         return ast.Call(func=ast.Name(id="<alt>", ctx=ast.Load()), args=uniq, keywords=[])
+
+    def _fold_class_consts(self, e, fi):
+        """`self.X` / `Cls.X` where X is a class-level constant collection of literals (assigned in the class body only)
+        reads like the literal written in place."""
+        prog, types = self.ctx.prog, self.ctx.types
+        tbl = self
+
+        def const_coll(v):
+            if isinstance(v, ast.Call) and isinstance(v.func, ast.Name) and v.func.id in ("frozenset", "tuple", "set", "list") and len(v.args) == 1 and not v.keywords:
+                v = v.args[0]
+            if isinstance(v, (ast.Tuple, ast.List, ast.Set)) and v.elts and all(isinstance(x, ast.Constant) for x in v.elts):
+                return ast.Tuple(elts=list(v.elts), ctx=ast.Load())
+            return None
+
+        class F(ast.NodeTransformer):
+            def visit_Attribute(self, n):
+                self.generic_visit(n)
+                owners = []
+                if isinstance(n.value, ast.Name) and n.value.id in ("@self", "@cls", "self", "cls") and fi.cls is not None:
+                    owners = list(fi.cls.mro)
+                else:
+                    c = prog.classes.get(norm(n.value))
+                    if c is not None:
+                        owners = list(c.mro)
+                for c in owners:
+                    if n.attr in c.class_attrs:
+                        if types.field_stores(c, n.attr):
+                            return n
+                        lit = const_coll(c.class_attrs[n.attr])
+                        return ast.copy_location(lit, n) if lit is not None else n
+                return n
+        if not any(isinstance(x, ast.Attribute) for x in ast.walk(e)):
+            return e
+        import copy
+        return F().visit(copy.deepcopy(e))
 
     def _inline_return(self, s: ast.Return, fi: FuncInfo, env, conds, depth) -> Optional[List[Row]]:
         """`return helper(...)` where helper is a small multi-return repo function: splice the helper's rows in."""
